@@ -96,5 +96,12 @@ func (i instruction) String() string {
 		}
 	}
 
+	if b := i.instrType.shamtBits; b > 0 {
+		as = append(as, fmt.Sprintf("%d", parseBitRange(i.value, 20, 20+b)))
+	}
+	if i.instrType.zimm {
+		as = append(as, fmt.Sprintf("%d", parseBitRange(i.value, 15, 20)))
+	}
+
 	return fmt.Sprintf("%s %s", i.instrType.name, strings.Join(as, ", "))
 }
